@@ -202,7 +202,56 @@ pub fn star_polygon(rng: &mut Rng, k: i64) -> Polygon<f64> {
     Polygon::new(LineString(ring_variant(rng, &v)), vec![])
 }
 
+/// A 5×5 square shell with pairwise disjoint holes whose bounding boxes overlap: a big triangular hole and a small
+/// square hole in the free corner of the triangle's box (random mirror image, random order, sometimes a third hole).
+pub fn overlap_holes_polygon(rng: &mut Rng) -> Polygon<f64> {
+    let (fx, fy) = (rng.chance(1, 2), rng.chance(1, 2));
+    let (ox, oy) = (rng.range(0, 2), rng.range(0, 2));
+    let w = if rng.chance(1, 3) { 8 } else { 5 };
+    let loc = |x: i64, y: i64| (ox + if fx { 5 - x } else { x }, oy + if fy { 5 - y } else { y });
+    let shell = vec![(ox, oy), (ox + w, oy), (ox + w, oy + 5), (ox, oy + 5), (ox, oy)];
+    let tri = vec![loc(1, 1), loc(4, 1), loc(1, 4), loc(1, 1)];
+    let sq = vec![loc(3, 3), loc(4, 3), loc(4, 4), loc(3, 4), loc(3, 3)];
+    let mut holes = vec![tri, sq];
+    if w == 8 {
+        holes.push(vec![(ox + 6, oy + 1), (ox + 7, oy + 1), (ox + 7, oy + 4), (ox + 6, oy + 1)]);
+    }
+    for _ in 0..2 {
+        let i = rng.below(holes.len() as u64) as usize;
+        let j = rng.below(holes.len() as u64) as usize;
+        holes.swap(i, j);
+    }
+    let hs: Vec<LineString<f64>> = holes.iter().map(|h| LineString(ring_variant(rng, h))).collect();
+    Polygon::new(LineString(ring_variant(rng, &shell)), hs)
+}
+
+/// A lake (square shell with a square hole) and an island inside the hole as a second member, in either order;
+/// sometimes a third member elsewhere. Valid: the island lies strictly inside the hole.
+pub fn island_multipolygon(rng: &mut Rng) -> MultiPolygon<f64> {
+    let (ox, oy) = (rng.range(0, 2), rng.range(0, 2));
+    let r = |x0: i64, y0: i64, x1: i64, y1: i64| vec![(ox + x0, oy + y0), (ox + x1, oy + y0), (ox + x1, oy + y1), (ox + x0, oy + y1), (ox + x0, oy + y0)];
+    let lake = Polygon::new(LineString(ring_variant(rng, &r(0, 0, 6, 6))), vec![LineString(ring_variant(rng, &r(1, 1, 5, 5)))]);
+    let isl = match rng.below(3) {
+        0 => r(2, 2, 4, 4),
+        1 => r(2, 2, 3, 4),
+        _ => vec![(ox + 2, oy + 2), (ox + 4, oy + 2), (ox + 3, oy + 4), (ox + 2, oy + 2)],
+    };
+    let island = Polygon::new(LineString(ring_variant(rng, &isl)), vec![]);
+    let mut v = vec![lake, island];
+    if rng.chance(1, 3) {
+        v.push(Polygon::new(LineString(ring_variant(rng, &r(7, 0, 9, 2))), vec![]));
+    }
+    if rng.chance(1, 2) {
+        v.swap(0, 1);
+    }
+    MultiPolygon(v)
+}
+
 pub fn gen_polygon(rng: &mut Rng, k: i64) -> Polygon<f64> {
+    // (independent of k: the operands of one case need not share an extent)
+    if rng.chance(1, 25) {
+        return overlap_holes_polygon(rng);
+    }
     match rng.below(8) {
         0 | 1 => star_polygon(rng, k),
         2 => {
@@ -234,6 +283,9 @@ pub fn gen_polygon(rng: &mut Rng, k: i64) -> Polygon<f64> {
 }
 
 pub fn gen_multipolygon(rng: &mut Rng, k: i64) -> MultiPolygon<f64> {
+    if rng.chance(1, 25) {
+        return island_multipolygon(rng);
+    }
     match rng.below(4) {
         0 => MultiPolygon(vec![]),
         1 => MultiPolygon(vec![gen_polygon(rng, k)]),
